@@ -552,7 +552,9 @@ def stepApi (st : St) : Api → Option St
   -- TupleElementTypes(): the internal slice itself
   | .tupleElementTypes v => do
     let (.ttuple ts, _) ← st.val v | none
-    pure (st.pushGo ts)
+    match ts with
+    | .slice .. | .null => pure (st.pushGo ts)
+    | _ => none
   -- cty.Object(attrTypes): copies into attrTypesNorm
   | .objectType g => do
     let .map a ← st.go g | none
@@ -561,8 +563,8 @@ def stepApi (st : St) : Api → Option St
     pure ((st.withMem m).pushVal (.tobject (.map ta)) .null)
   -- AttributeTypes(): the internal map itself
   | .attributeTypes v => do
-    let (.tobject ta, _) ← st.val v | none
-    pure (st.pushGo ta)
+    let (.tobject (.map ta), _) ← st.val v | none
+    pure (st.pushGo (.map ta))
   -- Path.Index / Path.GetAttr: ret := make(Path, len(p)+1); copy
   | .pathIndex g v => do
     let p ← st.go g
@@ -589,11 +591,14 @@ def stepApi (st : St) : Api → Option St
   | .psAdd g p h => do
     let .set a ← st.go g | none
     let pw ← st.go p
-    let m0 := match pw with
-      | .slice arr _ _ _ => freezeCaller st.mem arr
-      | _ => st.mem
-    let m ← setAdd equivPath m0 a pw h
-    pure (st.withMem m)
+    match pw with
+    | .slice arr _ _ _ => do
+      let m ← setAdd equivPath (freezeCaller st.mem arr) a pw h
+      pure (st.withMem m)
+    | .null => do
+      let m ← setAdd equivPath st.mem a pw h
+      pure (st.withMem m)
+    | _ => none
   | .psHas g p h => do
     let .set a ← st.go g | none
     let pw ← st.go p
@@ -764,6 +769,9 @@ def respectful (st : St) : HeapOp → Bool
   | .caller c => match callerTarget st c with
     | some a => ownerOf st.mem a == some .caller
     | none => true
+  | .api (.numberVal g) => match st.go g with
+    | some (.num a) => ownerOf st.mem a == some .caller || ownerOf st.mem a == some .lib
+    | _ => true
   | .api (.vsAdd g _ _) | .api (.vsRemove g _ _) => match st.go g with
     | some (.pair _ (.set a)) => setOwned st.mem a
     | _ => true
@@ -781,6 +789,29 @@ def respectful (st : St) : HeapOp → Bool
     | some wk => walkerOwned st.mem wk
     | none => true
   | .api _ => true
+
+/-- the DOCUMENTED part of `respectful` only: what the caller must not do.
+* a caller action writes only an object the caller still owns;
+* `NumberVal`, `cty.Tuple`, `PathSet.Add` are given an object the caller owns (whose
+  ownership they take) or one the library already owns — not a walk's path buffer. -/
+def docRespectful (st : St) : HeapOp → Bool
+  | .caller c => match callerTarget st c with
+    | some a => ownerOf st.mem a == some .caller
+    | none => true
+  | .api (.numberVal g) => match st.go g with
+    | some (.num a) => ownerOf st.mem a == some .caller || ownerOf st.mem a == some .lib
+    | _ => true
+  | .api (.psAdd _ p _) => match st.go p with
+    | some (.slice arr _ _ _) => ownerOf st.mem arr == some .caller || ownerOf st.mem arr == some .lib
+    | _ => true
+  | .api (.tupleType g) => match st.go g with
+    | some (.slice arr _ _ _) => ownerOf st.mem arr == some .caller || ownerOf st.mem arr == some .lib
+    | _ => true
+  | .api _ => true
+
+def docRespectfulRun : St → List HeapOp → Bool
+  | _, [] => true
+  | st, op :: ops => docRespectful st op && docRespectfulRun ((step st op).getD st) ops
 
 /-- the objects of the current heap a step may write in place or take ownership of
 (`C20.step_writes_only`): the target of a caller action; the big.Float / slice a
